@@ -11,6 +11,7 @@ import FunModel.Drv.C03
 import FunModel.Drv.C10
 import FunModel.Drv.C15
 import FunModel.Drv.C01
+import FunModel.Drv.C11
 
 /-! Line-protocol driver: `driver <property>` reads one S-expression per line on stdin and prints
     the model's observation for it on one line. Core Lean only (no Mathlib) so it links. -/
@@ -29,6 +30,7 @@ def handlerFor : String → Option (Sexp → String)
   | "C20" => some DrvC06.handleBoth
   | "C03" => some DrvC03.handle
   | "C10" => some DrvC10.handle
+  | "C11" => some DrvC11.handle
   | "C17" => some DrvC16.handle
   | "C15" => some DrvC15.handle
   | "C01" => some DrvC01.handle
